@@ -2104,3 +2104,124 @@ silent("c20-closure-update-form", ["C20"], IUT,
        "                    if stmt_3 not in dep_graph.get(stmt_1, set()):\n"
        "                        changed_something = True\n"
        "                        dep_graph[stmt_1] |= {stmt_3}\n")
+
+fire("c06-forced-parens-skipped-by-text", ["C06", "C13", "C14"], SF,
+     "        if isinstance(expr, force_parens_around):\n"
+     "            result = f\"({result})\"\n",
+     "        if isinstance(expr, force_parens_around) \\\n"
+     "                and not (result.startswith(\"(\") and result.endswith(\")\")):\n"
+     "            result = f\"({result})\"\n",
+     "T/printer/forced-parens-unconditional")
+fire("c06-paren-if-needed-skipped-by-text", ["C06", "C13", "C14"], SF,
+     "        if enclosing_prec > my_prec:\n"
+     "            return f\"({s})\"\n",
+     "        if enclosing_prec > my_prec and not (\n"
+     "                s.startswith(\"(\") and s.endswith(\")\")):\n"
+     "            return f\"({s})\"\n",
+     "T/printer/parenthesize-if-needed")
+silent("c06-forced-parens-negated-form", ["C06", "C13", "C14"], SF,
+       "        if isinstance(expr, force_parens_around):\n"
+       "            result = f\"({result})\"\n\n"
+       "        return result\n",
+       "        if not isinstance(expr, force_parens_around):\n"
+       "            return result\n\n"
+       "        return f\"({result})\"\n")
+
+_CLOSURE_OLD = (
+    "    while True:\n"
+    "        changed_something = False\n\n"
+    "        for stmt_1 in dep_graph:\n"
+    "            for stmt_2 in dep_graph.get(stmt_1, set()).copy():\n"
+    "                for stmt_3 in dep_graph.get(stmt_2, set()).copy():\n"
+    "                    if stmt_3 not in dep_graph.get(stmt_1, set()):\n"
+    "                        changed_something = True\n"
+    "                        dep_graph[stmt_1].add(stmt_3)\n\n"
+    "        if not changed_something:\n"
+    "            break\n")
+fire("c20-closure-one-sweep-source-outermost", ["C20"], IUT, _CLOSURE_OLD,
+     "    for stmt_1 in dep_graph:\n"
+     "        for stmt_2 in dep_graph.get(stmt_1, set()).copy():\n"
+     "            dep_graph[stmt_1].update(dep_graph.get(stmt_2, set()))\n",
+     "P/closure/fixed-point")
+silent("c20-closure-warshall", ["C20"], IUT, _CLOSURE_OLD,
+       "    for stmt_2 in list(dep_graph):\n"
+       "        for stmt_1 in dep_graph:\n"
+       "            if stmt_2 in dep_graph[stmt_1]:\n"
+       "                dep_graph[stmt_1] |= dep_graph.get(stmt_2, set())\n")
+
+_FOLD_OLD = (
+    "        rec_children = [self.rec(child) for child in children]\n"
+    "        result = rec_children[-1]\n"
+    "        for child in rec_children[-2::-1]:\n"
+    "            result = ast.BinOp(child, op_type, result)\n")
+fire("c13-export-balanced-fold-drops-odd", ["C13"], IA, _FOLD_OLD,
+     "        rec_children = [self.rec(child) for child in children]\n"
+     "        while len(rec_children) > 1:\n"
+     "            rec_children = [ast.BinOp(left, op_type, right)\n"
+     "                            for left, right in zip(rec_children[::2],\n"
+     "                                                   rec_children[1::2])]\n"
+     "        result = rec_children[0]\n",
+     "E/exporter/_map_multi_children_op/order")
+silent("c13-export-fold-renamed-left", ["C13"], IA, _FOLD_OLD,
+       "        mapped = [self.rec(child) for child in children]\n"
+       "        acc = mapped[0]\n"
+       "        for nxt in mapped[1:]:\n"
+       "            acc = ast.BinOp(acc, op_type, nxt)\n"
+       "        result = acc\n")
+fire("c13-export-fold-left-swapped", ["C13"], IA, _FOLD_OLD,
+     "        mapped = [self.rec(child) for child in children]\n"
+     "        acc = mapped[0]\n"
+     "        for nxt in mapped[1:]:\n"
+     "            acc = ast.BinOp(nxt, op_type, acc)\n"
+     "        result = acc\n",
+     "E/exporter/_map_multi_children_op/order")
+
+fire("c05-cse-table-class-level", ["C05", "C10", "C12"], MI,
+     "    def map_common_subexpression(self, expr, *args):\n"
+     "        try:\n"
+     "            ccd = self._cse_cache_dict\n"
+     "        except AttributeError:\n"
+     "            ccd = self._cse_cache_dict = {}\n",
+     "    _cse_cache_dict: dict = {}\n\n"
+     "    def map_common_subexpression(self, expr, *args):\n"
+     "        ccd = self._cse_cache_dict\n",
+     "O/cse-mixin/table-per-instance")
+fire("c05-cached-mapper-table-class-level", ["C05", "C02"], MI,
+     "    def __init__(self):\n"
+     "        self._cache: dict[Any, Any] = {}\n"
+     "        Mapper.__init__(self)\n",
+     "    _cache: dict[Any, Any] = {}\n\n"
+     "    def __init__(self):\n"
+     "        Mapper.__init__(self)\n",
+     "O/CachedMapper/table-per-instance")
+silent("c05-cse-table-getattr-form", ["C05", "C10", "C12"], MI,
+       "        try:\n"
+       "            ccd = self._cse_cache_dict\n"
+       "        except AttributeError:\n"
+       "            ccd = self._cse_cache_dict = {}\n",
+       "        if not hasattr(self, \"_cse_cache_dict\"):\n"
+       "            self._cse_cache_dict = {}\n"
+       "        ccd = self._cse_cache_dict\n")
+
+fire("c06-comma-absorbs-closed-tuple", ["C06", "C07"], PF,
+     "            if pstate.is_at_end() or pstate.next_tag() is _closepar:\n"
+     "                if isinstance(left_exp, (tuple, list)) \\\n"
+     "                        and not isinstance(left_exp, FinalizedContainer):\n",
+     "            if pstate.is_at_end() or pstate.next_tag() is _closepar:\n"
+     "                if isinstance(left_exp, (tuple, list)):\n",
+     "Tuple")
+fire("c06-comma-extends-closed-tuple", ["C06", "C07"], PF,
+     "                new_el = self.parse_expression(pstate, _PREC_COMMA)\n"
+     "                if isinstance(left_exp, (tuple, list)) \\\n"
+     "                        and not isinstance(left_exp, FinalizedContainer):\n",
+     "                new_el = self.parse_expression(pstate, _PREC_COMMA)\n"
+     "                if isinstance(left_exp, (tuple, list)):\n",
+     "")
+
+fire("c07-negative-literal-fast-path", ["C07"], PF,
+     "            left_exp = -self.parse_expression(pstate, _PREC_UNARY)",
+     "            if pstate.is_next(_int) or pstate.is_next(_float):\n"
+     "                left_exp = -self.parse_terminal(pstate)\n"
+     "            else:\n"
+     "                left_exp = -self.parse_expression(pstate, _PREC_UNARY)",
+     "T/pygrammar/-2**2")
